@@ -895,6 +895,34 @@ def translate(repo):
                 kind, lines = _run(it, loop.body, env)
                 rows.append(("ops", _ops(g, ("a", "b")), lines) if kind in ("ok", "skip") else ("raise", kind[1], lines))
         T["dec_tetrad"][cls] = rows
+
+    # ---- the label grammar of tetrad_to_graph: whole little files are fed line by line through the translated loop
+    # body (node-line branch included, so an unsupported construct there fails closed too); a character / label is
+    # 'free' if labels containing it come back as exactly the nodes and the edge that were written
+    import string
+
+    def _file_ok(labels, edge):
+        g = _graph_ctor(it, fd, "graph_type", "pag", layers)
+        env = {"G": g, "next_nodes_line": False}
+        text = ["Graph Nodes:", ";".join(labels), "", "Graph Edges:", "1. %s --> %s" % edge, ""]
+        for ln in text:
+            env["line"] = ln + "\n"
+            kind, _ = _run(it, loop.body, env)
+            if kind not in ("ok", "skip"):
+                return False
+        nodes = [op[1] for op in g.ops if op[0] == "node"]
+        edges = [op for op in g.ops if op[0] != "node"]
+        return nodes == list(labels) and edges == [(edge[0], edge[1], "directed")]
+
+    def _label_free(lab):
+        return (_file_ok([lab, "z"], (lab, "z")) and _file_ok(["z", lab], ("z", lab)) and
+                _file_ok(["y", lab, "z"], ("y", "z")))
+    if not _label_free("abc"):
+        raise TranslationError("T:tetrad.py: the translated parser does not read back a plain three-line file")
+    reserved = [c for c in string.punctuation + " "
+                if not all(_label_free(l) for l in (c, c + "b", "a" + c, "a" + c + "b"))]
+    specials = ["007", "-->", "<--", "o-o", "<->", "---", "1.", "2.", "Nodes:", "Edges:", "Graph", ".", ":"]
+    T["tetrad_grammar"] = {"reserved_chars": reserved, "bad_specials": [l for l in specials if not _label_free(l)]}
     return T
 
 
